@@ -355,6 +355,52 @@ func convertedOffTrial(r *vh.Run, i int) {
 	root := r.TempDir("c19o")
 	defer vh.RemoveAll(root)
 	wit := map[string]any{"trial": i}
+	if i%2 == 1 {
+		// the plain case: a fresh directory served with the referrers API off from the first request on - which is a read
+		// of a repository that does not exist yet.  Everything but the referrers API works, now and after a restart.
+		c := vh.Conf(vh.Dir, root, vh.Neutral)
+		c.API.Referrer.Enabled = vh.BP(false)
+		srv := vh.New(c)
+		hd := func(h http.Handler, tag string) int {
+			return vh.Do(h, vh.Req{Method: "HEAD", URL: "/v2/f/manifests/" + tag, H: map[string]string{"Accept": vh.AcceptAll}}).Status
+		}
+		cfg := []byte(fmt.Sprintf(`{"f":%d}`, i))
+		cb := &vh.Blob{Name: "cfg", B: cfg, D: vh.DigestOf("sha256", cfg)}
+		mk := func(n string) *vh.Man {
+			return vh.MkImage(n, "sha256", vh.MTImage, cb, vh.MTConfig, nil, "", "", map[string]string{"n": n, "i": fmt.Sprint(i)})
+		}
+		put := func(h http.Handler, m *vh.Man, tag string) int {
+			return vh.Do(h, vh.Req{Method: "PUT", URL: "/v2/f/manifests/" + tag, H: map[string]string{"Content-Type": m.MT}, Body: m.Raw}).Status
+		}
+		var steps []string
+		step := func(name string, got, want int) bool {
+			steps = append(steps, fmt.Sprintf("%s=%d", name, got))
+			if got != want {
+				wit["steps"] = steps
+				r.Violation("switch:referrers-off:fresh-directory", fmt.Sprintf("fresh directory store with the referrers API off: %s answered %d, expected %d (steps so far: %v)", name, got, want, steps), wit)
+				return false
+			}
+			return true
+		}
+		r.Count("converted_off_trials", 1)
+		r.Distinct("cells", "referrers-off-fresh")
+		ok := step("HEAD v1 before anything exists", hd(srv, "v1"), 404) &&
+			step("POST blob", vh.Do(srv, vh.Req{Method: "POST", URL: "/v2/f/blobs/uploads/?digest=" + cb.D, Body: cfg}).Status, 201) &&
+			step("PUT v1", put(srv, mk("v1"), "v1"), 201) &&
+			step("HEAD v1", hd(srv, "v1"), 200)
+		_ = srv.Close()
+		if !ok {
+			return
+		}
+		srv2 := vh.New(c)
+		tl := vh.Do(srv2, vh.Req{Method: "GET", URL: "/v2/f/tags/list"})
+		_ = step("tags/list after restart", tl.Status, 200) &&
+			step("HEAD v1 after restart", hd(srv2, "v1"), 200) &&
+			step("PUT v2 after restart", put(srv2, mk("v2"), "v2"), 201) &&
+			step("HEAD v2", hd(srv2, "v2"), 200)
+		_ = srv2.Close()
+		return
+	}
 	pc := vh.Conf(vh.Dir, root, vh.Neutral)
 	psrv := vh.New(pc)
 	cfg := []byte(fmt.Sprintf(`{"o":%d}`, i))
